@@ -65,18 +65,40 @@ def rule_merge_op(ctx, rep):
                 rep.check("R-MERGE-OP", fn.qname, fn.loc(n), ok, f"| on {t.split('.')[-1]}", f"`{unparse(n)}` does not dispatch to a merging __or__")
 
 
+def _keys_operand(side: ast.expr) -> str | None:
+    """The mapping whose keys `side` enumerates: m.keys() / set(m) / list(m) / m itself (iterating a dict yields its keys)."""
+    if isinstance(side, ast.Call) and last_attr(side.func) == "keys" and isinstance(side.func, ast.Attribute):
+        return unparse(side.func.value)
+    if isinstance(side, ast.Call) and call_name(side) in ("set", "list", "tuple", "sorted", "iter") and side.args:
+        return _keys_operand(side.args[0]) or unparse(side.args[0])
+    if isinstance(side, (ast.Name, ast.Attribute)):
+        return unparse(side)
+    return None
+
+
 def _key_union_loops(fn: FuncInfo):
-    """for k in a.keys() | b.keys(): ... -> (loop, key var, operand names)"""
+    """loops whose variable ranges over the keys of two mappings:  for k in a.keys() | b.keys()  /  chain(a, b)  /  [*a, *b]  /
+    {**a, **b}   -> (loop, key var, operand names)"""
     for n in walk_no_nested(fn.node):
-        if isinstance(n, ast.For) and isinstance(n.target, ast.Name) and isinstance(n.iter, ast.BinOp) and isinstance(n.iter.op, ast.BitOr):
-            ops = []
-            for side in (n.iter.left, n.iter.right):
-                if isinstance(side, ast.Call) and last_attr(side.func) == "keys" and isinstance(side.func, ast.Attribute):
-                    ops.append(unparse(side.func.value))
-                elif isinstance(side, ast.Call) and call_name(side) == "set" and side.args:
-                    ops.append(unparse(side.args[0]))
-            if len(ops) == 2:
-                yield n, n.target.id, ops
+        if not (isinstance(n, ast.For) and isinstance(n.target, ast.Name)):
+            continue
+        it = n.iter
+        sides = None
+        if isinstance(it, ast.BinOp) and isinstance(it.op, ast.BitOr):
+            sides = [it.left, it.right]
+        elif isinstance(it, ast.Call) and (last_attr(it.func) in ("chain", "union")) and len(it.args) >= 2:
+            sides = list(it.args)
+        elif isinstance(it, ast.Call) and last_attr(it.func) == "union" and isinstance(it.func, ast.Attribute) and len(it.args) == 1:
+            sides = [it.func.value, it.args[0]]
+        elif isinstance(it, (ast.List, ast.Tuple, ast.Set)) and len(it.elts) >= 2 and all(isinstance(e, ast.Starred) for e in it.elts):
+            sides = [e.value for e in it.elts]
+        elif isinstance(it, ast.Dict) and len(it.values) >= 2 and all(k is None for k in it.keys):
+            sides = list(it.values)
+        if not sides:
+            continue
+        ops = [_keys_operand(x) for x in sides]
+        if len(ops) >= 2 and all(ops):
+            yield n, n.target.id, ops
 
 
 def rule_total_lookup(ctx, rep):
@@ -84,7 +106,7 @@ def rule_total_lookup(ctx, rep):
         "R-TOTAL-LOOKUP",
         "in the ResultSet merge (`__or__`, `__ior__`, list_dict_or) a key ranging over the union of two key sets must not be "
         "used to subscript one operand directly (KeyError for keys present on one side only)",
-        min_instances=2,
+        min_instances=1,
     )
     mod = ctx.prog.module("codemodder.result")
     fns = [f for f in ctx.prog.live_functions() if f.module is mod]
@@ -105,8 +127,10 @@ def rule_total_lookup(ctx, rep):
             rep.check("R-TOTAL-LOOKUP", fn.qname, fn.loc(bad[0] if bad else loop), not bad, f"for {key} in union",
                       "partial lookup(s) " + ", ".join(f"`{unparse(b)}`" for b in bad)
                       + f" with `{key}` ranging over the union of both operands' keys: KeyError when a key exists on one side only")
-    if n_loops < 2:
-        raise AnalysisError("merge loops over key unions not found in codemodder/result.py (anchor vanished)")
+    # a merge written without any key-union loop (e.g. `for k, v in other.items()`) has no partial-lookup hazard; the rule is
+    # vacuous then, which is reported as such rather than as an error -- the merge functions themselves are anchored by R-MERGE-OP
+    if n_loops == 0:
+        rep.instance("R-TOTAL-LOOKUP", mod.name, f"src/{mod.relpath}:1", True, detail="no loop over a union of key sets")
 
 
 def rule_or_precedence(ctx, rep):
